@@ -372,6 +372,41 @@ fn handle(vm: &mut Option<Vm>, line: &str) -> String {
             let frames = v.last_stacktrace().map(|t| t.frames.len() as i64).unwrap_or(-1);
             format!("OK {} {} {}", rs, frames, hex(&state::dump_vm(&mut v)))
         }
+        #[cfg(feature = "hooks")]
+        "retention" => {
+            // evaluates the forms of <setup>, churns, measures the cells in use, evaluates <drop>, churns, measures again
+            let setup = unhex_arg(parts[1]);
+            let drop = unhex_arg(parts[2]);
+            let mut v = Vm::new();
+            let run = |v: &mut Vm, text: &str| -> Result<(), String> {
+                let mut rest: Option<&str> = Some(text);
+                while let Some(t) = rest {
+                    match v.eval_text(t) {
+                        Ok((_, r)) => rest = r,
+                        Err(e) => return Err(format!("{:?}", e)),
+                    }
+                }
+                Ok(())
+            };
+            let churn = "(define (churn n) (if (> n 0) (begin (cons n n) (churn (- n 1))) 0)) (churn 30000)";
+            if let Err(e) = run(&mut v, &setup) {
+                return format!("ERR {}", hex(&e));
+            }
+            if let Err(e) = run(&mut v, churn) {
+                return format!("ERR {}", hex(&e));
+            }
+            v.run_gc();
+            let used1 = v.verif_heap().used_size();
+            if let Err(e) = run(&mut v, &drop) {
+                return format!("ERR {}", hex(&e));
+            }
+            if let Err(e) = run(&mut v, "(churn 30000)") {
+                return format!("ERR {}", hex(&e));
+            }
+            v.run_gc();
+            let used2 = v.verif_heap().used_size();
+            format!("OK {} {}", used1, used2)
+        }
         "evalc" => {
             // like eval, canonical printing of the last result
             let text = unhex_arg(parts[1]);
